@@ -22,7 +22,8 @@ AUDIT_FILES = ["PyroModel/Batch.lean", "PyroModel/Gen/C11.lean", "PyroProofs/Bat
 THEOREMS = ["Pyro.C11.C11_refines", "Pyro.C11.C11_oneway", "Pyro.C11.C11_positions", "Pyro.C11.C11_submit_failure",
             "Pyro.C11.C11_stops", "Pyro.C11.C11_executed_prefix", "Pyro.C11.C11_sequential_spec",
             "Pyro.C11.C11_pre_failure", "Pyro.C11.C11_statement_holds", "Pyro.C11.C11_statement_fails_when_pre_raises",
-            "Pyro.C11.C11_gen_dumpsCall_accepts_no_kwargs", "Pyro.C11.C11_gen_wrapper_transportable", "Pyro.C11.C11_gen_server_shape", "Pyro.C11.C11_gen_client_shape"]
+            "Pyro.C11.C11_gen_dumpsCall_accepts_no_kwargs", "Pyro.C11.C11_gen_wrapper_transportable", "Pyro.C11.C11_gen_server_probes", "Pyro.C11.C11_gen_single_probes",
+            "Pyro.C11.C11_gen_generator_probes", "Pyro.C11.C11_gen_client_facts"]
 SUITES = ["batch", "sequential"]
 RULE = ("a case = a generated finite-state reference object (1..4 states; per (state, method, argument) a row: next state + "
         "returned value or raised exception; state dependent availability of two dynamic members) + a call list of length "
@@ -324,29 +325,38 @@ def _fmt_log(log):
     return ",".join("%d.%d" % (n, a) for n, a in log) or "-"
 
 
+class _KwargsShim(object):
+    """stands between a real BatchProxy and the real Proxy and does what Proxy._pyroInvokeBatch does, except that it
+    hands `{}` instead of `None` as kwargs to Proxy._pyroInvoke (no private name of the client classes is touched)"""
+
+    def __init__(self, proxy):
+        self.proxy = proxy
+
+    def _pyroClaimOwnership(self):
+        self.proxy._pyroClaimOwnership()
+
+    def _pyroInvokeBatch(self, calls, oneway=False):
+        from Pyro5 import protocol
+        flags = protocol.FLAGS_BATCH | (protocol.FLAGS_ONEWAY if oneway else 0)
+        return self.proxy._pyroInvoke("<batch>", calls, {}, flags)
+
+
 def run_batch(env, case, bypass=False):
     """the real BatchProxy run -> (canonical line, details).
     bypass=True (only used after finding F11 has been reported for this case, to look behind it): do what
-    BatchProxy.__call__ does but hand `{}` instead of `None` as kwargs to Proxy._pyroInvoke."""
+    a BatchProxy over _KwargsShim: `{}` instead of `None` as kwargs to Proxy._pyroInvoke."""
     srv, ser, oneway = case["srv"], case["ser"], case["oneway"]
     b, _ = env.objs[srv]
     rows, dyn = _static_dyn(case)
     b.reset(rows, dyn, case["q0"], hold=bool(case.get("hold")) and oneway)
     pb, _ = env.proxies(srv, ser)
-    bp = env.batch_proxy(srv, ser)
+    bp = env.client.BatchProxy(_KwargsShim(pb)) if bypass else env.batch_proxy(srv, ser)
     for n, a in case["calls"]:
         args, kwargs = ARGS[a]
         bp.__getattr__(NAMES[n])(*args, **kwargs)       # BatchProxy.__getattr__ -> _BatchedRemoteMethod.__call__
     raw_vals, exc = [], None
     try:
-        if bypass:
-            from Pyro5 import protocol
-            flags = protocol.FLAGS_BATCH | (protocol.FLAGS_ONEWAY if oneway else 0)
-            results = pb._pyroInvoke("<batch>", bp._BatchProxy__calls, {}, flags)
-            r = None if oneway else bp._BatchProxy__resultsgenerator(results)
-            env.batch_proxy(srv, ser, fresh=True)
-        else:
-            r = bp(oneway=True) if oneway else bp()
+        r = bp(oneway=True) if oneway else bp()
     except Exception as e:      # noqa
         env.batch_proxy(srv, ser, fresh=True)            # a failed submit leaves the collected calls in the BatchProxy
         seen, exc, kind = "submit:" + env.exc_id(e), e, "submit"
@@ -401,6 +411,14 @@ def _exc_same(a, b):
     return type(a) is type(b) and _ADDR.sub("0x", _key(a.args)) == _ADDR.sub("0x", _key(b.args))
 
 
+def _grew_after_sync(env, case, sync_at):
+    """failure path only: did members of the oneway batch run AFTER the following plain call was served?"""
+    obj = env.objs[case["srv"]][0]
+    if len(obj.log) <= sync_at:
+        threading.Event().wait(0.1)        # give a side thread that was just released the time to log its next call
+    return len(obj.log) > sync_at
+
+
 def judge(env, case, bres, sres):
     """the property itself on the two REAL runs (no model involved) -> (signature, description) or None"""
     what = "%s/%s/%s batch of %d call(s)" % (case["ser"], "oneway" if case["oneway"] else "normal", case["srv"], len(case["calls"]))
@@ -423,7 +441,7 @@ def judge(env, case, bres, sres):
         return ("%s-unmarshallable-wrapper" % case["ser"],
                 "%s [%s]: batch() raises %r (the server cannot serialise the reply list holding the exception wrapper); "
                 "one by one the calls give %d result(s) then %r" % (what, calls, bres["exc"], len(sres["vals"]), sres["exc"]))
-    if bres.get("sync_at") is not None and bres["sync_at"] != len(sres["log"]):
+    if bres.get("sync_at") is not None and bres["sync_at"] < len(sres["log"]) and _grew_after_sync(env, case, bres["sync_at"]):
         return ("oneway-batch-overtaken-by-next-call",
                 "%s [%s]: the plain call made right after the oneway batch on the same proxy was executed when %d of the %d "
                 "member(s) that run one by one had been executed: the batch is not served in the connection's request order"
